@@ -274,6 +274,18 @@ class HybridClass(metaclass=MetaHybridClass):
 
                 pyname = self._rename.get(ff.name, ff.name)
                 setattr(self, pyname, vv)
+            elif hasattr(self, "_dressed_" + ff.name):
+                # a dressed object remembered for a reference field is kept
+                # only if the new buffer data refer to that very object
+                old_vv = getattr(self, "_dressed_" + ff.name)
+                xref = getattr(_xobject, ff.name)
+                if (
+                    xref is None
+                    or not hasattr(old_vv, "_xobject")
+                    or xref._buffer is not old_vv._xobject._buffer
+                    or xref._offset != old_vv._xobject._offset
+                ):
+                    delattr(self, "_dressed_" + ff.name)
 
     def xoinitialize(self, _xobject=None, _kwargs_name_check=True, **kwargs):
         if _kwargs_name_check:
